@@ -629,6 +629,18 @@ func (s *State) exec(ins ssa.Instruction) (next []*State, stop bool) {
 	case *ssa.RunDefers:
 		s.runDefers()
 	case *ssa.Go:
+		top := fr
+		for top.Caller != nil {
+			top = top.Caller
+		}
+		if top.Spec != nil && top.Spec.GoSequential {
+			// A-CONC-FJ (declared with `gosequential`): the goroutines this function starts are joined before it
+			// returns and do not interfere with each other or with the code between spawn and join; each is executed
+			// here, at its spawn point
+			c.assume("A-CONC-FJ: goroutines started by " + c.Key + " are executed at their spawn point (fork-join, no interference)")
+			fake := &ssa.Call{Call: ins.Call}
+			return s.doCall(fake, &fake.Call)
+		}
 		s.abstracted("go statement in " + fr.Fn.Name())
 		s.havocAllHeap("go statement")
 	case *ssa.Send:
